@@ -137,6 +137,14 @@ def guarded(e, pred):
     return [(c, p) for c, p in e.guards if pred(c, p)]
 
 
+def ite_arms(t):
+    """Both arms of a conditional term with the condition under which each is taken
+    (independent of the orientation the normaliser chose): [(cond, value), (not cond, value)]."""
+    if t is None or t[0] != 'ite':
+        return []
+    return [(t[1], t[2]), (T.not_(t[1]), t[3])]
+
+
 def bind_call(repo, callee_qual, e, analyses=None):
     """Map the arguments of call event ``e`` onto the parameters of the
     package-local callee.  Returns (bound: dict name->term, passthrough: list of
